@@ -127,6 +127,11 @@ def units(tier, seed):
   for i in range(0, len(progs), step):
     us.append(dict(kind='linen', lo=i, hi=min(len(progs), i + step)))
   us.append(dict(kind='linen-fallback'))
+  # determinism and non-reuse under lifted jit / remat (clause shared with C05, family R)
+  jb = [[['rng', 'dropout']], [['child', 'B', [['rng', 'dropout']], None, 1]],
+        [['param', 'a', 's'], ['rng', 'dropout']]]
+  for t in ('jit@A', 'AJ', 'remat@A'):
+    us.append(dict(kind='linen-jit', t=t, bodies=jb))
   d = bounds(tier)['nnx_history_depth']
   for first in range(len(NNX_ACTIONS)):
     us.append(dict(kind='nnx', first=first, depth=d))
@@ -139,6 +144,9 @@ def run_unit(unit):
     _linen(res, unit)
   elif unit['kind'] == 'linen-fallback':
     _fallback(res)
+  elif unit['kind'] == 'linen-jit':
+    from mc.checks import c05
+    c05._fam_R(res, unit)
   else:
     _nnx(res, unit)
   return res
